@@ -68,6 +68,9 @@ var c12Shapes = []c12Shape{
 	{name: "empty-envelope", build: func(id uint64, tag string) *env.Rpc { return &env.Rpc{Id: id} }},
 }
 
+// indices into c12Shapes used by the back-to-back ("burst") sequences
+var c12BurstShapes = []int{0, 13, 17, 18, 20, 22} // valid-unary, open-bidi, body, trailer-ok, reset, body+trailer
+
 func c12(tier string) []*explore.Scenario {
 	var out []*explore.Scenario
 	maxLen := 3
@@ -84,6 +87,11 @@ func c12(tier string) []*explore.Scenario {
 			out = append(out, c12Seq(si, id, maxLen, 0))
 		}
 	}
+	// back-to-back sequences around stream opens and bodies
+	for _, si := range []int{13, 17, 18, 20, 22} { // open-bidi, body, trailer-ok, reset, body+trailer
+		out = append(out, c12SeqT(si, 1, maxLen+2, 0, true))
+		out = append(out, c12SeqT(si, 1, maxLen, 1, true))
+	}
 	if tier == "thorough" {
 		for si := range c12Shapes {
 			out = append(out, c12Seq(si, 1, 2, 1))
@@ -97,9 +105,20 @@ func c12(tier string) []*explore.Scenario {
 }
 
 func c12Seq(first int, firstID uint64, maxLen, bound int) *explore.Scenario {
+	return c12SeqT(first, firstID, maxLen, bound, false)
+}
+
+// burst: the envelopes are sent back to back (no quiescence in between) and
+// stream handlers read one message and return, so that envelopes race with
+// handlers starting, running and finishing; only the end-state oracles apply.
+func c12SeqT(first int, firstID uint64, maxLen, bound int, burst bool) *explore.Scenario {
 	fam := "C12/hostile"
+	mode := "seq"
+	if burst {
+		mode = "burst"
+	}
 	return &explore.Scenario{
-		Name:   fmt.Sprintf("C12/seq/first=%s@%d/len<=%d/d=%d", c12Shapes[first].name, firstID, maxLen, bound),
+		Name:   fmt.Sprintf("C12/%s/first=%s@%d/len<=%d/d=%d", mode, c12Shapes[first].name, firstID, maxLen, bound),
 		Family: fam, Prop: "C12", Bound: bound, MaxExecs: 3000000,
 		Run: func() {
 			w := env.NewWorld()
@@ -117,7 +136,15 @@ func c12Seq(first int, firstID uint64, maxLen, bound int) *explore.Scenario {
 			streamRec := map[uint64]*env.Rec{} // the stream currently believed open per id
 			for pos := 0; pos < maxLen; pos++ {
 				si, id := first, firstID
-				if pos > 0 {
+				if pos > 0 && burst {
+					// reduced alphabet around streams: longer sequences instead
+					c := vsched.Choose(len(c12BurstShapes) + 1)
+					if c == len(c12BurstShapes) {
+						break
+					}
+					si = c12BurstShapes[c]
+					id = uint64(1 + vsched.Choose(2))
+				} else if pos > 0 {
 					c := vsched.Choose(len(c12Shapes) + 1)
 					if c == len(c12Shapes) {
 						break
@@ -134,14 +161,20 @@ func c12Seq(first int, firstID uint64, maxLen, bound int) *explore.Scenario {
 				if sh.unaryMust || sh.unaryMay {
 					rec = w.Rec(tag, "Unary")
 				}
-				if (sh.opens || sh.opensMay) && !open {
+				if (sh.opens || sh.opensMay) && (!open || burst) {
 					rec = w.Rec(tag, "Bidi")
 					streamRec[id] = rec
+					if burst {
+						w.Handlers[tag] = env.HReturnAfter(1, nil)
+					}
 				}
 				resetsBefore := countResets(d, id)
 				if err := d.Pipe.A.Inject(rpc); err != nil {
 					vsched.Fail(fam+"|harness", "inject failed: %v", err)
 					return
+				}
+				if burst {
+					continue
 				}
 				vsched.Quiesce()
 				if d.ServeDone {
@@ -160,6 +193,11 @@ func c12Seq(first int, firstID uint64, maxLen, bound int) *explore.Scenario {
 				case sh.body && !open && countResets(d, id) != resetsBefore+1:
 					vsched.Fail(fam+"|no-reset-for-unknown-stream", "after%s: a body for a stream the server does not know must be answered by a reset for id %d (resets before %d, after %d)", seq, id, resetsBefore, countResets(d, id))
 				}
+			}
+			vsched.Quiesce()
+			if d.ServeDone {
+				vsched.Fail(fam+"|serve-ended", "Serve returned (%v) after the peer sent:%s", d.ServeErr, seq)
+				return
 			}
 			if len(w.Stray) > 0 {
 				// a handler ran for something that is not a well-formed request: only the
